@@ -84,3 +84,20 @@ Proof.
   - cbn [rule_matches]. apply escaped_iff. exact T.
 Qed.
 End P.
+
+(* the second guard: what [guard_noeol] returns never ends in ` (no-eol)`, so the escaped rule (which drops such an ending) reads
+   the whole of it *)
+Lemma ends_with_last : forall suf l x y, x <> y -> ends_with (suf ++ [x]) (l ++ [y]) = false.
+Proof.
+  intros suf l x y H. unfold ends_with. rewrite !rev_app_distr. cbn [rev app ends_with_rev].
+  assert (E: (x =? y) = false) by lia. rewrite E. reflexivity.
+Qed.
+Theorem guard_noeol_keeps_ending : forall t, strip_suffix S_NOEOL (guard_noeol t) = None.
+Proof.
+  intros t. unfold guard_noeol. destruct (strip_suffix S_NOEOL t) as [h|] eqn:E; [|exact E].
+  unfold strip_suffix.
+  replace (h ++ [32; 40; 110; 111; 45; 101; 111; 108] ++ X29) with ((h ++ [32; 40; 110; 111; 45; 101; 111; 108; 92; 120; 50]) ++ [57])
+    by (unfold X29; rewrite <- !app_assoc; reflexivity).
+  change S_NOEOL with ([32; 40; 110; 111; 45; 101; 111; 108] ++ [41]).
+  rewrite ends_with_last by discriminate. reflexivity.
+Qed.
